@@ -915,7 +915,9 @@ func (c *Ctx) floatBin(op token.Token, a, b *Term) *Term {
 		case token.LSS, token.LEQ, token.GTR, token.GEQ:
 			return UFApp("ofp."+nm, SBool, a, b)
 		}
-		return UFApp("ofp."+nm, a.S, a, b)
+		r := UFApp("ofp."+nm, a.S, a, b)
+		c.commAssume(op, "ofp."+nm, r, a, b)
+		return r
 	}
 	switch op {
 	case token.LSS:
@@ -946,7 +948,20 @@ func (c *Ctx) floatBin(op token.Token, a, b *Term) *Term {
 	if c.fp {
 		return App(name, SFP, RNE, a, b)
 	}
-	return UFApp("u"+name, SFP, a, b)
+	r := UFApp("u"+name, SFP, a, b)
+	c.commAssume(op, "u"+name, r, a, b)
+	return r
+}
+
+// commAssume (flag fcomm): uninterpreted float addition and multiplication are commutative, as IEEE-754 addition and
+// multiplication are (NaN payloads aside).
+func (c *Ctx) commAssume(op token.Token, name string, r, a, b *Term) {
+	if c.contract == nil || c.contract.Flags["fcomm"] == "" || a == b {
+		return
+	}
+	if op == token.ADD || op == token.MUL {
+		c.assume(Eq(r, UFApp(name, r.S, b, a)))
+	}
 }
 
 func (fr *Frame) unop(x *ssa.UnOp) {
